@@ -13,11 +13,15 @@
   * `spelling_*`: the alternative spellings the documentation offers (`#[n(i)]` / `#[cbor(n(i))]`,
     `with = "m"` / `encode_with` + `decode_with` + `cbor_len`, `has_nil` / `is_nil` + `nil`, one
     attribute / several) mean the same.
-  * `order_sensitive_*`: the *written* order of attributes is not irrelevant — two machine-checked
-    witnesses of definitions that are rejected in one order and accepted in another (rejection is
-    safe: no definition is accepted with two meanings, `accepted_orders_agree_example`).
+  * `order_sensitive_*`: the *written* order of attributes is not irrelevant for ACCEPTANCE —
+    machine-checked witnesses of a definition that is rejected in one order and accepted in another.
+  * `accepted_meaning_order_free`: … but it is irrelevant for the MEANING: whenever two field
+    definitions state the same items — in any order, grouped into attributes in any way — and both
+    are accepted (under any iteration orders), they mean the same (same index, tag, skip, encode /
+    is_nil / decode / nil / cbor_len functions).  No definition is accepted with two meanings.
 -/
 import Minicbor.Lemmas.AttrsInv
+import Minicbor.Lemmas.AttrsMeaning
 
 namespace Minicbor.Attrs
 
@@ -276,5 +280,44 @@ theorem accepted_examples :
       insertCl, insertRs, insertAll, Order.canonical, Order.reversed, A.entries, A.codec, A.encoding, A.index, A.indexOnly, A.transparent, A.typeParam,
       A.nil, A.isNil, A.hasNil, A.contextBound, A.cborLen, A.tag, A.skip, finalChecks, A.len, o2n, b2n, fieldSem, CC.isModule,
       CC.encodePath, CC.decodePath, CC.isNilPath, CC.nilPath, CC.cborLenPath, A.cborLenFn, U32, U64, Except.toOption]
+
+/-! ### the written order never changes the meaning of an accepted field -/
+
+theorem fromAttrs_facts (ord : Order) (hord : ord.Valid) (l : Level) (attrs : List Attr) (a : A) (h : fromAttrs ord l attrs = .ok a) :
+    Settled a ∧ ∀ f, f ∈ a.facts ↔ f ∈ factsOfItems (allItems attrs) := by
+  unfold fromAttrs at h
+  cases hm : mergeAttrs ord l {} attrs with
+  | error e => rw [hm] at h; cases h
+  | ok a0 =>
+    rw [hm] at h; simp only at h
+    obtain ⟨rfl, hs⟩ := finalChecks_settled a0 a h
+    refine ⟨hs, fun f => ?_⟩
+    have := mergeAttrs_facts ord hord l attrs {} a hm f
+    simpa [empty_facts] using this
+
+/-- **No definition is accepted with two meanings.**  Two field definitions whose attributes state
+    the same items (any order, any grouping into `#[n]` / `#[b]` / `#[cbor(...)]` attributes), both
+    accepted — each under an arbitrary HashMap iteration order — mean the same. -/
+theorem accepted_meaning_order_free (ord1 ord2 : Order) (h1 : ord1.Valid) (h2 : ord2.Valid) (attrs1 attrs2 : List Attr)
+    (hp : (allItems attrs1).Perm (allItems attrs2)) (a1 a2 : A)
+    (ha1 : fromAttrs ord1 .field attrs1 = .ok a1) (ha2 : fromAttrs ord2 .field attrs2 = .ok a2) :
+    fieldSem a1 = fieldSem a2 := by
+  obtain ⟨s1, f1⟩ := fromAttrs_facts ord1 h1 .field attrs1 a1 ha1
+  obtain ⟨s2, f2⟩ := fromAttrs_facts ord2 h2 .field attrs2 a2 ha2
+  apply fieldSem_of_facts a1 a2 s1 s2
+  intro f
+  rw [f1, f2]
+  simp only [factsOfItems, List.mem_flatMap]
+  constructor
+  · rintro ⟨it, hit, hf⟩; exact ⟨it, hp.mem_iff.1 hit, hf⟩
+  · rintro ⟨it, hit, hf⟩; exact ⟨it, hp.mem_iff.2 hit, hf⟩
+
+/-- non-vacuity: the two accepted spellings of `order_sensitive_accepted` state the same items and
+    are instances of the theorem (and the rejected third order is outside its hypotheses). -/
+theorem accepted_meaning_order_free_example (e z d : Path) :
+    (allItems [.n 0, .cbor [.encodeWith e], .cbor [.isNil z], .cbor [.decodeWith d]]).Perm
+      (allItems [.n 0, .cbor [.isNil z, .decodeWith d, .encodeWith e]]) := by
+  simp only [allItems, List.flatMap_cons, List.flatMap_nil, Attr.items, List.append_nil, List.cons_append, List.nil_append]
+  exact List.Perm.cons _ ((List.Perm.swap _ _ _).trans (List.Perm.cons _ (List.Perm.swap _ _ _)))
 
 end Minicbor.Attrs
